@@ -1475,6 +1475,15 @@ impl<'h> Interp<'h> {
                     );
                     d.also.push(("C15", "c15-spurious".to_string(), msg));
                 }
+                if matches!(reply, HandleStunReply::StunResponse(_)) && !self.agent.is_validated_peer(from) {
+                    // whether or not this response should have been delivered: it was, so its source
+                    // counts as a peer a response was delivered from
+                    let msg = format!(
+                        "step {} (t={} ms): a response received from {} was delivered (StunResponse) but is_validated_peer({}) is false: a peer is validated exactly when a response received from it has been delivered",
+                        self.step, self.now, from, from
+                    );
+                    d.also.push(("C15", "c15-delivered-not-validated".to_string(), msg));
+                }
                 if still && matches!(reply, HandleStunReply::StunResponse(_)) {
                     // delivered, yet the transaction stays outstanding: it can be delivered again, be
                     // retransmitted and time out later (more than one outcome for one request)
@@ -1836,7 +1845,7 @@ pub fn cfg_strategy() -> BoxedStrategy<(u32, u8, u32)> {
     // well-known schedules: the RFC 8489 defaults the agent starts with ("configure back to the
     // defaults"), the RFC 5389 numbers, the TCP-style single long wait
     let parts = (
-        prop_oneof![3 => 1u32..=2000, 1 => 1u32..=60_000, 1 => Just(500u32), 1 => Just(1u32), 1 => Just(60_000u32)],
+        prop_oneof![6 => 1u32..=2000, 2 => 1u32..=60_000, 2 => Just(500u32), 2 => Just(1u32), 2 => Just(60_000u32), 1 => Just(0u32)],
         prop_oneof![4 => 0u8..=4, 2 => 0u8..=8, 1 => Just(8u8), 1 => Just(6u8), 1 => Just(7u8)],
         prop_oneof![3 => 0u32..=3000, 1 => 0u32..=60_000, 1 => Just(0u32), 1 => Just(60_000u32), 1 => Just(8_000u32)],
     );
